@@ -274,3 +274,23 @@ Proof.
   intros Hin. apply negb_true_iff in H1. assert (existsb (Z.eqb x) l = true); [|congruence].
   apply existsb_exists. exists x. split; [assumption|apply Z.eqb_refl].
 Qed.
+
+(* the order in which Go's map iteration delivers the table is irrelevant *)
+Theorem get_perm l l' size : Permutation l l' -> NoDup (keys l) -> l <> [] ->
+  plconfig_get (sort_ranges l) size = plconfig_get (sort_ranges l') size.
+Proof.
+  intros Hp Hnd Hne.
+  assert (Hnd' : NoDup (keys l')).
+  { unfold keys. eapply Permutation_NoDup; [|exact Hnd]. now apply Permutation_map. }
+  assert (Hne' : l' <> []). { intros ->. apply Permutation_sym, Permutation_nil in Hp. congruence. }
+  assert (Hin : forall y, In y l <-> In y l').
+  { intros y. split; apply Permutation_in; [assumption|now symmetry]. }
+  destruct (table_lookup l size Hnd Hne) as [Hb Hn].
+  destruct (table_lookup l' size Hnd' Hne') as [Hb' Hn'].
+  destruct (none_le_dec l size) as [Hnone|Hex].
+  - destruct (min_exists l Hne) as (x & Hx). rewrite (Hn Hnone x Hx). symmetry. apply Hn'.
+    + intros y Hy. apply Hnone. now apply Hin.
+    + destruct Hx as (Hxin & Hxmin). split; [now apply Hin|]. intros y Hy. apply Hxmin. now apply Hin.
+  - destruct (best_exists l size Hex) as (x & Hx). rewrite (Hb x Hx). symmetry. apply Hb'.
+    eapply is_best_perm; [|exact Hx]. assumption.
+Qed.
